@@ -187,7 +187,7 @@ pub fn prop() -> Prop {
         gen,
         check,
         panic_is_violation: false,
-        budget: (300_000, 10_000_000),
+        budget: (1800000, 60000000),
         extra: Some(extra),
         required: &["multi_word"],
         known: None,
